@@ -189,14 +189,6 @@ func init() {
 				return "bad-case"
 			}
 			s, err := gtab.VerifReadGsubSubtable(b, int64(pos), 5)
-			if pos+2 <= len(b) {
-				// gsub.go:41: the uint16 key 10*5+format of these format words selects the
-				// reader of another lookup type (6_1 6_2 6_3 7_1 8_1, wrapped: 1_1 1_2 2_1 3_1 4_1)
-				switch int(b[pos])<<8 | int(b[pos+1]) {
-				case 11, 12, 13, 21, 31, 65497, 65498, 65507, 65517, 65527:
-					return "err:other-reader"
-				}
-			}
 			if err != nil {
 				return totalErrClass(err)
 			}
@@ -616,9 +608,18 @@ func totalSeqctxStructured(r *Rng, thorough bool) []totalSeqctxTab {
 	for _, fw := range []int{0, 4, 0xffff, 0x0100, 0x0301} {
 		add("format-"+strconv.Itoa(fw), totalSeqctxCat(totalSeqctxW(fw), totalSeqctxBuild12(1, cov3, nil, []totalSeqctxSet{set(r1)}, -1)[2:]))
 	}
-	for _, fw := range []int{11, 12, 13, 21, 31, 41, 65497, 65498, 65507, 65517, 65527, 65487} {
-		add("format-other-reader-"+strconv.Itoa(fw), totalSeqctxCat(totalSeqctxW(fw), totalSeqctxBuild12(1, cov3, nil, []totalSeqctxSet{set(r1)}, -1)[2:]))
+	// the former key collisions of gsubReaders[10*5+format] (uint16): 11, 12, 13 hit 6_1 6_2 6_3,
+	// 21 hit 7_1, 31 hit 8_1, 65497.. wrapped to 1_1 1_2 2_1 3_1 4_1.  Since the range check of the
+	// dispatcher (gsub.go:42) all of them are invalid, like 4..10, 41, 65487 (0xFFCF) and 0xffff.
+	for _, fw := range []int{4, 5, 9, 10, 11, 12, 13, 21, 31, 41, 65497, 65498, 65507, 65517, 65527, 65487, 65486} {
+		add("format-collision-"+strconv.Itoa(fw), totalSeqctxCat(totalSeqctxW(fw), totalSeqctxBuild12(1, cov3, nil, []totalSeqctxSet{set(r1)}, -1)[2:]))
 	}
+	// the same format words in front of a body that the formerly selected reader accepts
+	add("format-collision-11-chained1-body", totalSeqctxW(11, 6, 0, 1, 0))            // ChainedSeqContext1: no rule sets, empty coverage
+	add("format-collision-13-chained3-body", totalSeqctxW(13, 0, 1, 12, 0, 0, 1, 0))  // ChainedSeqContext3: one input coverage
+	add("format-collision-21-extension-body", totalSeqctxW(21, 1, 0, 8, 1, 0, 2, 5))  // extension -> Gsub1_1
+	add("format-collision-65497-gsub11-body", totalSeqctxW(65497, 6, 1, 1, 1, 5))     // Gsub1_1: coverage {5}, delta 1
+	add("format-collision-31-gsub81-body", totalSeqctxW(31, 10, 0, 0, 1, 1, 1, 5, 7)) // Gsub8_1-like
 	add("empty", nil)
 	add("len1", []byte{0})
 	for _, f := range []int{1, 2, 3} {
@@ -850,6 +851,9 @@ func totalSeqctxGen(c *Ctx, r *Rng, seeds []totalSeed) {
 		b := r.Bytes(r.Range(0, 64))
 		if !r.Chance(1, 6) && len(b) >= 2 {
 			b[0], b[1] = 0, byte(r.Range(1, 3))
+		} else if r.Chance(1, 3) && len(b) >= 2 { // a former collision format word
+			fw := Pick(r, []int{11, 12, 13, 21, 31, 65497, 65498, 65507, 65517, 65527, 10, 0xffcf})
+			b[0], b[1] = byte(fw>>8), byte(fw)
 		}
 		if r.Bool() {
 			for k := 2; k+1 < len(b); k += 2 {
